@@ -628,18 +628,95 @@ func (r *Run) errorText(x Iface) (string, bool) {
 func (r *Run) sprintf(format string, args Slice) Value {
 	n, ok := args.ln.(int64)
 	if !ok {
-		return "<fmt>"
+		return r.opaqueString(format)
 	}
 	native := make([]interface{}, 0, n)
+	allNative := true
 	for i := int64(0); i < n; i++ {
 		v, ok := r.nativeOf(args.a[i], nil)
 		if !ok {
-			return "<fmt:" + format + ">"
+			allNative = false
+			break
 		}
 		native = append(native, v)
 	}
-	if format == "" {
-		return fmt.Sprint(native...)
+	if allNative {
+		if format == "" {
+			return fmt.Sprint(native...)
+		}
+		return fmt.Sprintf(format, native...)
 	}
-	return fmt.Sprintf(format, native...)
+	// symbolic arguments: splice symbolic strings for %s / %v, format concrete arguments natively
+	if format == "" {
+		return r.opaqueString(format)
+	}
+	out := &SymStr{n: int64(0)}
+	appendStr := func(v Value) bool {
+		switch x := v.(type) {
+		case string:
+			out = asSym(concatStr(out, strToSym(x)))
+		case *SymStr:
+			if _, ok := out.n.(int64); !ok {
+				return false
+			}
+			out = asSym(concatStr(out, x))
+		default:
+			return false
+		}
+		return true
+	}
+	arg := int64(0)
+	for i := 0; i < len(format); i++ {
+		c := format[i]
+		if c != '%' {
+			if !appendStr(string(c)) {
+				return r.opaqueString(format)
+			}
+			continue
+		}
+		if i+1 >= len(format) {
+			return r.opaqueString(format)
+		}
+		i++
+		verb := format[i]
+		if verb == '%' {
+			appendStr("%")
+			continue
+		}
+		if arg >= n {
+			return r.opaqueString(format)
+		}
+		av := args.a[arg]
+		arg++
+		if iv, ok := av.(Iface); ok {
+			av = iv.v
+		}
+		if nv, ok := r.nativeOf(args.a[arg-1], nil); ok {
+			if !appendStr(fmt.Sprintf("%"+string(verb), nv)) {
+				return r.opaqueString(format)
+			}
+			continue
+		}
+		if (verb == 's' || verb == 'v') && appendStr(av) {
+			continue
+		}
+		return r.opaqueString(format)
+	}
+	return normStr(out)
+}
+
+func asSym(v Value) *SymStr {
+	switch x := v.(type) {
+	case string:
+		return strToSym(x)
+	case *SymStr:
+		return x
+	}
+	panic("asSym")
+}
+
+// opaqueString stands for formatted text the engine does not model (log lines): unique per call.
+func (r *Run) opaqueString(format string) Value {
+	r.auxCounter++
+	return fmt.Sprintf("<fmt#%d:%s>", r.auxCounter, format)
 }
